@@ -48,7 +48,10 @@ for pid in ALL:
         "engine": "pyxab-sim",
         "level_claimed": {"category": c.level, "text": c.level_text, "design_ref": c.design_ref},
         "level_note": c.level_note,
-        "technique": c.technique,
+        "technique": c.technique + ("" if "fault" in c.technique else
+                                    " - seeded search over histories with injected faults (forced end-point / extreme draws at the "
+                                    "np.random seam, adversarial reward programs, interjected and mid-round queries, neighbour "
+                                    "instances), minimised replayable counterexamples"),
     })
 json.dump(man, open(os.path.join(os.path.dirname(os.path.dirname(os.path.abspath(__file__))), "MANIFEST.json"), "w"), indent=1)
 print("MANIFEST.json:", len(man["checks"]), "checks,", len(man["not_applicable"]), "not claimed")
